@@ -11,6 +11,8 @@
 -/
 import PyGqlModel.Props.C02_reparse
 import PyGqlModel.Lemmas.SpanSolid
+import PyGqlModel.Lemmas.SpanShiftDoc
+import PyGqlModel.Lemmas.SpanWfDoc
 namespace PyGql.Props.C02
 open PyGql PyGql.Ast PyGql.Parse PyGql.Spec PyGql.Props.C01
 open PyGql.Spec.Lexical (Tiles slice eofT)
@@ -19,7 +21,8 @@ open PyGql.Spec.Lexical (Tiles slice eofT)
 private theorem doc_core (fl : Flags) (s : Text) (d : Document) (h : parseText fl s = some d)
     (x : Definition) (hx : x ∈ d.definitions) (j : Item) (hs : Item.Sub j (definitionV x))
     (a b : Nat) (is : List Item) (hj : j = .node (some (a, b)) is) :
-    a ≤ b ∧ b ≤ s.length ∧ ∃ toks', Lex.lexAll (slice s a b) = .ok toks' ∧ Matches fl [p .sof, j.down a, p .eof] toks' := by
+    a ≤ b ∧ b ≤ s.length ∧ fl.noLocation = false ∧ ∃ seg, Lex.lexAll (slice s a b) = .ok (Lex.sofTok :: (seg ++ [eofT (b - a)])) ∧
+      Item.checkAll fl [p .sof, j.down a, p .eof] default (Lex.sofTok :: (seg ++ [eofT (b - a)])) = some (eofT (b - a), []) := by
   obtain ⟨toks, hl, _, hm⟩ := (parse_text_result_partial fl s d).1 h
   obtain ⟨l', hm⟩ := (matches_iff _ _ _).1 hm
   obtain ⟨body, rfl, ht⟩ := (lexAll_ok_iff s toks).mp hl
@@ -31,9 +34,9 @@ private theorem doc_core (fl : Flags) (s : Text) (d : Document) (h : parseText f
   rw [check_node] at h1
   obtain ⟨f, tl, _, hall, _⟩ := h1
   have hsol : j.solid = true := solid_sub hs (definitionV_solid x)
-  obtain ⟨h1, h2, seg, htl, l2, hc⟩ := item_slice fl s body ht (d.definitions.map definitionV) default l' hall
+  obtain ⟨h1, h2, hnl, seg, htl, hc⟩ := item_slice fl s body ht (d.definitions.map definitionV) default l' hall
     (i := definitionV x) (j := j) (List.mem_map.2 ⟨x, hx, rfl⟩) hs hsol is a b hj
-  refine ⟨h1, h2, _, ?_, (matches_iff _ _ _).2 ⟨l2, hc⟩⟩
+  refine ⟨h1, h2, hnl, seg, ?_, hc⟩
   apply (lexAll_ok_iff _ _).mpr
   exact ⟨_, rfl, by rw [Spec.slice_length h1 h2]; exact htl⟩
 
@@ -42,8 +45,10 @@ private theorem doc_core (fl : Flags) (s : Text) (d : Document) (h : parseText f
 theorem span_reparse_node (fl : Flags) (s : Text) (d : Document) (h : parseText fl s = some d) :
     ∀ x ∈ d.definitions, ∀ j, Item.Sub j (definitionV x) → ∀ a b is, j = .node (some (a, b)) is →
       a ≤ b ∧ b ≤ s.length ∧
-      ∃ toks', Lex.lexAll (slice s a b) = .ok toks' ∧ Matches fl [p .sof, j.down a, p .eof] toks' :=
-  fun x hx j hs a b is hj => doc_core fl s d h x hx j hs a b is hj
+      ∃ toks', Lex.lexAll (slice s a b) = .ok toks' ∧ Matches fl [p .sof, j.down a, p .eof] toks' := by
+  intro x hx j hs a b is hj
+  obtain ⟨h1, h2, _, seg, hlex, hc⟩ := doc_core fl s d h x hx j hs a b is hj
+  exact ⟨h1, h2, _, hlex, (matches_iff _ _ _).2 ⟨_, hc⟩⟩
 
 /-- value nodes of a document: `parse_value` on the spanned characters RETURNS the node (modulo offset).
     `wfValue false w` (enum values are not `true`/`false`/`null`) holds for every value node of a parsed document
@@ -56,7 +61,8 @@ theorem span_reparse_doc_value (fl : Flags) (s : Text) (d : Document) (h : parse
   intro x hx w hs hwf a b hloc
   obtain ⟨is, hnode⟩ := valueV_node w
   rw [hloc] at hnode
-  obtain ⟨h1, h2, toks', hlex, hm⟩ := doc_core fl s d h x hx _ hs a b is hnode
+  obtain ⟨h1, h2, _, seg, hlex, hc⟩ := doc_core fl s d h x hx _ hs a b is hnode
+  have hm := (matches_iff _ _ _).2 ⟨_, hc⟩
   refine ⟨h1, h2, ?_⟩
   rw [← valueV_down] at hm
   have hpc := parseValue_complete fl _ (w.mapLoc (locDown a)) (by rw [wfValue_mapLoc]; exact hwf) hm
@@ -72,12 +78,49 @@ theorem span_reparse_doc_type (fl : Flags) (s : Text) (d : Document) (h : parseT
   intro x hx w hs hwf a b hloc
   obtain ⟨is, hnode⟩ := typeV_node w
   rw [hloc] at hnode
-  obtain ⟨h1, h2, toks', hlex, hm⟩ := doc_core fl s d h x hx _ hs a b is hnode
+  obtain ⟨h1, h2, _, seg, hlex, hc⟩ := doc_core fl s d h x hx _ hs a b is hnode
+  have hm := (matches_iff _ _ _).2 ⟨_, hc⟩
   refine ⟨h1, h2, ?_⟩
   rw [← typeV_down] at hm
   have hpc := parseType_complete fl _ (w.mapLoc (locDown a)) (by rw [wfType_mapLoc]; exact hwf) hm
   unfold parseTypeText
   rw [hlex]; simp only [hpc]; rfl
+
+theorem definitionV_node (x : Definition) : ∃ is, definitionV x = .node x.loc is := by
+  cases x with
+  | operation o => simp only [definitionV, operationV, Definition.loc]; split <;> exact ⟨_, rfl⟩
+  | fragment o => exact ⟨_, rfl⟩
+  | _ => exact ⟨_, rfl⟩
+
+/-- DEFINITIONS: the characters inside the span of a definition (operation, fragment, type-system definition or
+    extension) are accepted by `parse` under the same flags, and the result is the document holding exactly that
+    definition, moved down by the start offset; the document's own span is the whole slice. -/
+theorem span_reparse_definition (fl : Flags) (s : Text) (d : Document) (h : parseText fl s = some d) :
+    ∀ x ∈ d.definitions, ∀ a b, x.loc = some (a, b) →
+      a ≤ b ∧ b ≤ s.length ∧
+      parseText fl (slice s a b) = some ⟨[x.mapLoc (locDown a)], some (0, b - a)⟩ := by
+  intro x hx a b hloc
+  obtain ⟨is, hnode⟩ := definitionV_node x
+  rw [hloc] at hnode
+  obtain ⟨h1, h2, hnl, seg, hlex, hc⟩ := doc_core fl s d h x hx _ .refl a b is hnode
+  refine ⟨h1, h2, ?_⟩
+  obtain ⟨_, _, wf, _⟩ := (parse_text_result_partial fl s d).1 h
+  have wfx : (wfDefinition fl x && (fl.allowTypeSystem || !isTypeSystem x)) = true := by
+    simp only [wfDocument, Bool.and_eq_true, List.all_eq_true] at wf
+    exact Bool.and_eq_true_iff.2 (wf.2 x hx)
+  apply (parse_text_result_partial fl _ _).2
+  refine ⟨_, hlex, ?_, (matches_iff _ _ _).2 ⟨eofT (b - a), ?_⟩⟩
+  · simp only [wfDocument, List.isEmpty_cons, Bool.not_false, Bool.true_and, List.all_cons, List.all_nil, Bool.and_true,
+      wfDefinition_mapLoc, isTypeSystem_mapLoc]
+    exact wfx
+  · rw [← definitionV_down] at hc
+    rw [checkAll_cons]
+    refine ⟨eofT (b - a), [], ?_, by rw [checkAll_nil]⟩
+    unfold documentV
+    rw [check_node]
+    refine ⟨Lex.sofTok, _, rfl, ?_, ?_⟩
+    · simpa using hc
+    · simp [locOf, hnl, Lex.sofTok, eofT]
 
 /-! ### non-vacuity: `{a(x:[1])}` — the argument value `[1]` (5,8) is a sub-node of the definition's view -/
 private def doc : Text := [123, 97, 40, 120, 58, 91, 49, 93, 41, 125]
@@ -101,5 +144,11 @@ example : ∃ x ∈ theDoc.definitions, Item.Sub (valueV wv) (definitionV x) ∧
 /-- and the conclusion, computed: `[1]` at offset 0 -/
 example : (parseValueText {} (slice doc 5 8)).map (fun v => v.subs.map Value.loc) = some [some (0, 3), some (1, 2)] := by
   decide
+
+/-- `{a} {b}`: the second definition spans (4,7); its text `{b}` parses to one definition spanning (0,3) in a document (0,3) -/
+private def two : Text := [123, 97, 125, 32, 123, 98, 125]
+example : (parseText {} two).map (fun d => d.definitions.map Definition.loc) = some [some (0, 3), some (4, 7)] := by decide
+example : (parseText {} (slice two 4 7)).map (fun d => (d.definitions.map Definition.loc, d.loc)) =
+    some ([some (0, 3)], some (0, 3)) := by decide
 
 end PyGql.Props.C02
